@@ -1,26 +1,25 @@
-\* three static voters, synchronous exchanges, no crashes: exhaustive
+\* reads, deeper (thorough tier, time-boxed)
 CONSTANTS
   Node = {a, b, c}
   InitVoters = {a, b, c}
-  Value = {x, y}
+  Value = {x}
   Nil = Nil
   MaxTerm = 2
   MaxLog = 4
-  MaxTimer = 5
+  MaxTimer = 2
   MaxAE = 2
   MaxClient = 1
   MaxCrash = 0
-  MaxHalf = 1
+  MaxHalf = 0
   MaxCfg = 0
-  MaxRead = 0
+  MaxRead = 1
   MaxSnap = 0
   SnapSize = 1
-  AsyncKinds = {}
-  MaxNet = 0
+  AsyncKinds = {"ae"}
+  MaxNet = 3
   W = {}
   MayTimeout = {a, b, c}
   Gen = FALSE
 SPECIFICATION Spec
-SYMMETRY Symm
-INVARIANTS ElectionSafety LogMatching NoViolation CommittedDurable TypeOK
+INVARIANTS ElectionSafety NoViolation NoStaleRead TypeOK
 CHECK_DEADLOCK FALSE
